@@ -638,7 +638,9 @@ func idemKey(c FmtCase, out1, out2 string) string {
 		return ""
 	}
 	// (1) the difference sits where the finding says it does
-	if k := idemKeyPositional(c, out1, out2); k != "" {
+	if k := idemKeyPositional(c, out1, out2); k == idemNotKnown {
+		return ""
+	} else if k != "" {
 		return k
 	}
 	// (2) knock-on differences (a re-indented token moves the line breaks behind it): the finding is taken to
